@@ -209,10 +209,10 @@ func TestC01(t *testing.T) {
 		leaves = []int{LIncA, LIncB, LTrvAP, LTrvAB, LPermQ}
 	}
 	var cov struct {
-		cases, judged, nontrivial, cut, outOfDomain, unconnected, allowed, denied                     int
-		sExecs, sTrans, sStates, sScen, sHeavy                                                        int
-		strictCases, maxThreads, sqlCases, sqlCalls, wideCases, chainCases, chainPrograms, pagedCases int
-		complete                                                                                      bool
+		cases, judged, nontrivial, cut, outOfDomain, unconnected, allowed, denied                                 int
+		sExecs, sTrans, sStates, sScen, sHeavy                                                                    int
+		strictCases, maxThreads, sqlCases, sqlCalls, wideCases, chainCases, chainPrograms, pagedCases, twoNSCases int
+		complete                                                                                                  bool
 	}
 	cov.complete = true
 	var cands []*Cand
@@ -365,6 +365,11 @@ func TestC01(t *testing.T) {
 	// leaf, written with the parentheses TypeScript needs and no others; the engine's decision on every
 	// assignment of direct tuples must be the value of the tree (end to end through the OPL parser)
 	cov.chainCases, cov.chainPrograms = c01Chains(t, run, shard, nshards)
+
+	// (A3) two namespaces: the same object names and the same relation exist in namespaces n and m; a subject
+	// set is identified by namespace, object AND relation. Every root-connected set of <= 4 tuples over the nodes
+	// n:o1, m:o1, n:o2, m:o2 (relation a, one user), both row orders, against the reference.
+	cov.twoNSCases = c01TwoNamespaces(t, run, shard, nshards)
 
 	// (B) the same engine over the REAL SQL persister and traverser (storage calls are atomic steps),
 	// row order forced through shard_id; the answer must equal both the reference and the answer over
@@ -593,6 +598,7 @@ func TestC01(t *testing.T) {
 		"sql_backed_cases":                cov.sqlCases,
 		"sql_wide_node_cases":             cov.wideCases,
 		"input_cases_with_page_size_1":    cov.pagedCases,
+		"two_namespace_cases":             cov.twoNSCases,
 		"opl_text_chain_programs":         cov.chainPrograms,
 		"opl_text_chain_cases":            cov.chainCases,
 		"store_calls_cross_checked":       cov.sqlCalls,
@@ -720,4 +726,66 @@ func c01Chains(t *testing.T, run *ev.Run, shard, nshards int) (cases, programs i
 		}
 	}
 	return cases, programs
+}
+
+func c01TwoNamespaces(t *testing.T, run *ev.Run, shard, nshards int) int {
+	if shard != 2%nshards {
+		return 0
+	}
+	nss := []*namespace.Namespace{{Name: "n", Relations: []ast.Relation{{Name: "a"}}}, {Name: "m", Relations: []ast.Relation{{Name: "a"}}}}
+	w := NewWorld(t, WorldOpt{Namespaces: nss, Depth: 8})
+	type node struct{ ns, obj string }
+	nodes := []node{{"n", "o1"}, {"m", "o1"}, {"n", "o2"}, {"m", "o2"}}
+	var univ []refsem.Tuple
+	for _, src := range nodes {
+		univ = append(univ, refsem.Tuple{NS: src.ns, Obj: src.obj, Rel: "a", ID: "u"})
+		for _, dst := range nodes {
+			univ = append(univ, refsem.Tuple{NS: src.ns, Obj: src.obj, Rel: "a", Set: &refsem.SS{NS: dst.ns, Obj: dst.obj, Rel: "a"}})
+		}
+	}
+	q := refsem.Tuple{NS: "n", Obj: "o1", Rel: "a", ID: "u"}
+	cases := 0
+	reported := false
+	try := func(ts []refsem.Tuple) {
+		ref := refsem.Check(w.Cfg, ts, q)
+		if !ref.InDomain || ref.Untouched > 0 {
+			return // not connected to the query / outside the reference's domain
+		}
+		for _, rev := range []bool{false, true} {
+			rows := ts
+			if rev {
+				rows = make([]refsem.Tuple, len(ts))
+				for i := range ts {
+					rows[len(ts)-1-i] = ts[i]
+				}
+			}
+			o := w.RunCheck(w.Rows(rows), w.Internal(q), vsched.Config{FastBase: true}, RunOpt{})
+			cases++
+			if o.Cut || reported {
+				continue
+			}
+			if o.X.Outcome != "ok" || o.Res.Err != nil || (o.Res.Membership == checkgroup.IsMember) != ref.Allowed {
+				reported = true
+				run.Violation("two-namespaces:decision-differs-from-reference", fmt.Sprintf("rows %s: check %s answers %s (err %v, %s), the reference says allowed=%v", tuplesStr(rows), q, memb(o.Res), o.Res.Err, o.X.Outcome, ref.Allowed), map[string]any{"family": "two-namespaces", "tuples_in_row_order": tuplesStr(rows), "query": q.String()})
+			}
+			if len(ts) < 2 {
+				break
+			}
+		}
+	}
+	n := len(univ)
+	for a := 0; a < n; a++ {
+		try([]refsem.Tuple{univ[a]})
+		for b := a + 1; b < n; b++ {
+			try([]refsem.Tuple{univ[a], univ[b]})
+			for c := b + 1; c < n; c++ {
+				try([]refsem.Tuple{univ[a], univ[b], univ[c]})
+				// (four tuples: a membership found on the first hop never needs the visited set)
+				for d := c + 1; d < n; d++ {
+					try([]refsem.Tuple{univ[a], univ[b], univ[c], univ[d]})
+				}
+			}
+		}
+	}
+	return cases
 }
